@@ -6,3 +6,5 @@ open RaftLog
 #print axioms c06_batch_rejected_entry_noop
 #print axioms c06_spec_rejects_vote
 #print axioms c06_spec_rejects_commit
+#print axioms c06_batch_refused_entry_noop
+#print axioms c06_batch_rejected_entry_noop_any
